@@ -1,9 +1,97 @@
 import CotengraVerif.Driver.Util
+import CotengraVerif.Model.Reusable
 
 namespace Cotengra.Driver.C14
-open Lean Cotengra Cotengra.Driver
+open Lean Cotengra Cotengra.Driver Cotengra.Reusable
+
+def conOf (j : Json) : Except String Con := do
+  pure { path := ← natListList (← field j "path"),
+         score := ← intOf (← field j "score"),
+         sliced := ← natList (← field j "sliced") }
+
+def jCon (c : Con) : Json :=
+  jObj [("path", jNatss c.path), ("score", jInt c.score), ("sliced", jNats c.sliced)]
+
+def cfgOf (j : Json) : Except String Cfg := do
+  let ow ← match ← (← field j "overwrite").getStr? with
+    | "no" => pure Overwrite.no
+    | "yes" => pure Overwrite.yes
+    | "improved" => pure Overwrite.improved
+    | s => throw s!"overwrite {s}"
+  pure { overwrite := ow, cacheOnly := ← (← field j "cache_only").getBool? }
+
+/-- index of the first element equal to `x` -/
+def classOf {α} [DecidableEq α] (l : List α) (x : α) : Nat := l.findIdx (· = x)
+
+/-- `c14.fp`: partition of a pool of contractions by fingerprint -/
+def fp : Handler := fun j => do
+  let nets ← (← arrOf (← field j "nets")).mapM netOf
+  let mB := (← (← field j "method").getStr?) == "b"
+  let fps := nets.map (fingerprint mB)
+  pure (jObj [("classes", jNats (fps.map (classOf fps)))])
+
+def jOptCon : Option Con → Json
+  | some c => jCon c
+  | none => Json.null
+
+/-- `c14.run`: a history of queries / process restarts through the policy model -/
+def run : Handler := fun j => do
+  let nets ← (← arrOf (← field j "nets")).mapM netOf
+  let mB := (← (← field j "method").getStr?) == "b"
+  let disk ← (← field j "disk").getBool?
+  let cfg0 ← cfgOf (← field j "cfg")
+  let evs ← arrOf (← field j "events")
+  let fps := nets.map (fingerprint mB)
+  let mut y : Sys Fp := { cfg := cfg0, st := { dd := { mem := [], disk := if disk then some [] else none }, searches := 0 } }
+  let mut out : Array Json := #[]
+  for e in evs do
+    match e.getObjVal? "restart" with
+    | .ok c =>
+      y := (y.step (.restart (← cfgOf c))).1
+      out := out.push (jObj [("kind", jStr "restart")])
+    | .error _ =>
+     match e.getObjVal? "update" with
+     | .ok u =>
+      let qi ← natOf (← field u "q")
+      let new ← conOf (← field u "con")
+      let ow ← match ← (← field u "overwrite").getStr? with
+        | "no" => pure Overwrite.no
+        | "yes" => pure Overwrite.yes
+        | "improved" => pure Overwrite.improved
+        | s => throw s!"overwrite {s}"
+      let tie := match u.getObjVal? "tie_replace" with
+        | .ok (Json.bool b) => b
+        | _ => false
+      match fps[qi]? with
+      | some k =>
+        y := { y with st := updateFromTree tie ow k new y.st }
+        out := out.push (jObj [("kind", jStr "update"), ("searches", jNat y.st.searches),
+          ("stored", jOptCon (y.st.dd.view k))])
+      | none => throw "bad net index"
+     | .error _ =>
+      let qi ← natOf (← field e "q")
+      let ans ← conOf (← field e "con")
+      match nets[qi]?, fps[qi]? with
+      | some q, some k =>
+        let before := y.st.searches
+        let tie := match e.getObjVal? "tie_replace" with
+          | .ok (Json.bool b) => b
+          | _ => false
+        let r := maybeRun { y.cfg with tieReplace := tie } k ans y.st
+        y := { y with st := r.1 }
+        let searched := r.1.searches != before
+        let (kind, con) := match r.2 with
+          | .keyError => ("KeyError", none)
+          | .ok true c => ("searched", some c)
+          | .ok false c => (if searched then "kept" else "hit", some c)
+        out := out.push (jObj [("kind", jStr kind), ("con", jOptCon con),
+          ("searches", jNat r.1.searches), ("stored", jOptCon (r.1.dd.view k)),
+          ("fits", jBool (match con with | some c => fits q c | none => true)),
+          ("key_class", jNat (classOf fps k))])
+      | _, _ => throw "bad net index"
+  pure (jObj [("results", Json.arr out)])
 
 /-- ops of property C14 (name them "c14.<op>") -/
-def handlers : List (String × Handler) := []
+def handlers : List (String × Handler) := [("c14.fp", fp), ("c14.run", run)]
 
 end Cotengra.Driver.C14
